@@ -16,7 +16,7 @@ with build.Workdir() as wd:
     run.regenerate(cfg, sizes)
 ")
 coq_makefile -f _CoqProject -o Makefile > /dev/null 2>&1
-MODELS="theories/Word.vo theories/PStream.vo theories/PEnc.vo theories/PMem.vo theories/PItem.vo theories/PUtf8.vo theories/PBuild.vo theories/PDrive.vo theories/SpecHead.vo theories/SpecItem.vo theories/SpecParse.vo theories/HHeap.vo theories/HItems.vo theories/HOps.vo theories/HHist.vo theories/HHist2.vo theories/HHist3.vo theories/PSize.vo"
+MODELS="theories/Word.vo theories/PStream.vo theories/PWiden.vo theories/PEnc.vo theories/PMem.vo theories/PItem.vo theories/PUtf8.vo theories/PBuild.vo theories/PDrive.vo theories/SpecHead.vo theories/SpecItem.vo theories/SpecParse.vo theories/HHeap.vo theories/HItems.vo theories/HOps.vo theories/HHist.vo theories/HHist2.vo theories/HHist3.vo theories/PSize.vo"
 if [ "$1" = "driver" ]; then
   timeout 1200 make -j16 $MODELS > /dev/null
 else
